@@ -83,24 +83,43 @@ inline StagesInt stages_int(S x, std::uint64_t N, std::uint64_t D) {
 // ---- integral source, floating target: distance of the result from the exact x*N/D in ulps(T) ----
 // binary128 holds x (<= 64 bits), x*N (< 2^96) exactly; the quotient is rounded at 113 bits, which is
 // negligible against the 24/53/64-bit target precision.
-template <typename T, typename S>
-inline double ulp_error(S x, std::uint64_t N, std::uint64_t D, T r) {
-    const q128 xe = x < 0 ? -(q128)(u128)(-(i128)x) : (q128)(u128)x;
-    const q128 e = xe * (q128)(u128)N / (q128)(u128)D;
-    const q128 rq = (q128)(long double)r;   // widening, exact
-    q128 diff = rq - e;
-    if (diff < 0) diff = -diff;
-    if (diff == 0) return 0.0;
-    long double big = (long double)(e < 0 ? -e : e);
-    const long double ar = r < 0 ? -(long double)r : (long double)r;
-    if (ar > big) big = ar;
+inline double ulps_of(long double diff, long double big, int digits, int min_exponent) {
     int k = 0;
     (void)std::frexp(big, &k);   // big = f * 2^k, f in [0.5, 1)  ->  ulp_T = 2^(k - digits)
-    int ue = k - std::numeric_limits<T>::digits;
-    const int umin = std::numeric_limits<T>::min_exponent - std::numeric_limits<T>::digits;
-    if (ue < umin) ue = umin;
-    const q128 ulp = (q128)std::ldexp(1.0L, ue);
-    return (double)(long double)(diff / ulp);
+    int ue = k - digits;
+    if (ue < min_exponent - digits) ue = min_exponent - digits;
+    return (double)(diff / std::ldexp(1.0L, ue));
+}
+template <typename T, typename S>
+inline double ulp_error(S x, std::uint64_t N, std::uint64_t D, T r) {
+    typedef std::numeric_limits<T> L;
+    const bool neg = x < 0;
+    const u128 ax = neg ? (u128)(-(i128)x) : (u128)x;
+    const u128 prod = ax * (u128)N;
+    const long double ar = r < 0 ? -(long double)r : (long double)r;
+    if (L::digits <= 53 && prod < ((u128)1 << 64)) {
+        // fast route: |x|*N is exact in the 64-bit significand of long double, one rounding at 2^-64
+        // in the quotient (2^-11 ulp of double) -- far below the 2/3-ulp thresholds
+        long double e = (long double)(std::uint64_t)prod / (long double)D;
+        const long double big = e > ar ? e : ar;
+        if (neg) e = -e;
+        long double diff = (long double)r - e;
+        if (diff < 0) diff = -diff;
+        if (diff == 0) return 0.0;
+        return ulps_of(diff, big, L::digits, L::min_exponent);
+    }
+    const q128 ea = (q128)prod / (q128)(u128)D;
+    const q128 e = neg ? -ea : ea;
+    q128 diff = (q128)(long double)r - e;   // widening, exact
+    if (diff < 0) diff = -diff;
+    if (diff == 0) return 0.0;
+    long double big = (long double)ea;
+    if (ar > big) big = ar;
+    int k = 0;
+    (void)std::frexp(big, &k);
+    int ue = k - L::digits;
+    if (ue < L::min_exponent - L::digits) ue = L::min_exponent - L::digits;
+    return (double)(long double)(diff / (q128)std::ldexp(1.0L, ue));
 }
 
 }  // namespace vf5
